@@ -531,7 +531,7 @@ def c01_custom(pid, tier, plan, scr, hbin, specdir):
     cov["samples"].append(dict(source="tlc-simulate MC_Abci_sim.cfg", behaviour=[e for e in behs[0][1:20]]))
     twin(behs, "twin-sim", "tlc-simulate:MC_Abci_sim.cfg on replicas A/B/C")
     # (2) long mixed histories from the seeded random driver, every crash point of every block
-    nh, steps, cap = (2, 60, 30) if tier == "quick" else (12, 160, 400)
+    nh, steps, cap = (2, 60, 30) if tier == "quick" else (6, 160, 40)
     rec = vlib.record_random(hbin, "mix", sd, steps, nh, scr)
     lines = [json.loads(l) for l in open(rec)]
     # registry-heavy histories with transactions that buy storage for several registrations at once
